@@ -64,6 +64,12 @@ def gen(tier, rng):
             cases.append(f"b64\t{hexs(c)}")
         if i % 4 == 0 and valid_utf8(c):
             cases.append(f"crlf\t{hexs(c)}")
+    # a body encoded beforehand (Body::new) given to a part builder that already carries another Content-Transfer-Encoding:
+    # the declared encoding must be the one the octets are in (decoded by the RFC 2045 reader of the C11 driver)
+    for i in range({"quick": 250, "search": 800, "thorough": 4000}[tier]):
+        c = rand_content(rng, 200)
+        k = "P" if valid_utf8(c) else "Q"
+        cases.append(f"mime\tM m - 1 S {hexs('text/plain; charset=utf-8')} {rng.choice(['7', 'q', 'b', '8', 'n', 'a'])} {k} {hexs(c) if c else '-'}")
     # line lengths around the limits, with and without a final newline, and long lines
     for L in list(range(72, 80)) + list(range(995, 1002)):
         for tail in (b"", b"\n", b"\r\n", b" ", b"\xc3\xa9"):
@@ -86,6 +92,8 @@ def gen(tier, rng):
 
 def content_of(case):
     f = case.split("\t")
+    if f[0] == "mime":
+        return unhex(f[1].split(" ")[-1])
     return unhex(f[3]) if f[0] == "body" else unhex(f[1])
 
 
@@ -95,6 +103,8 @@ def nontrivial(case):
 
 
 def shrinkable(case):
+    if case.startswith("mime"):
+        return []
     return [3] if case.startswith("body") else [1]
 
 
